@@ -690,7 +690,7 @@ func evaluate(c *Case) verdict {
 
 var stems = []string{"a", "b", "c", "m1", "data", "File", "x.y", "", "zz"}
 var exts = []string{"", ".ach", ".txt", ".json", ".ACH", ".Txt", ".JSON", ".xml", ".csv", ".ach.bak", ".", ".achx", ".Json"}
-var dirNames = []string{"d1", "sub", "in.ach", "z", "K", "nested.json"}
+var dirNames = []string{"d1", "sub", "in.ach", "z", "K", "nested.json", "2024.10", "batch.d", "v1.2.old"}
 
 type content struct {
 	text  string
